@@ -39,6 +39,51 @@ func calleeName(c ssa.CallInstruction) string {
 	return "dyn:" + shortName(cc.Value.Type().String())
 }
 
+// calleeBase: calleeName without the type arguments of a generic instance ("slices.Sort[[]string string]" -> "slices.Sort").
+func calleeBase(c ssa.CallInstruction) string {
+	n := calleeName(c)
+	if i := strings.Index(n, "["); i > 0 && !strings.HasPrefix(n, "dyn:") && !strings.HasPrefix(n, "invoke:") {
+		return n[:i]
+	}
+	return n
+}
+
+// isTotalSort: the call sorts its first argument completely (standard library sorts, old and new, and option.Sort).
+func isTotalSort(n string) bool {
+	switch n {
+	case "sort.Strings", "sort.Ints", "sort.Slice", "sort.SliceStable", "option.Sort", "slices.Sort", "slices.SortFunc", "slices.SortStableFunc":
+		return true
+	}
+	return false
+}
+
+// keysCallOf: v is slices.Sorted(maps.Keys(m)) / slices.Collect(maps.Keys(m)) / slices.AppendSeq(empty, maps.Keys(m)):
+// returns m and whether the list is sorted.
+func keysCallOf(v ssa.Value) (m ssa.Value, sorted, ok bool) {
+	c, isCall := v.(*ssa.Call)
+	if !isCall {
+		return nil, false, false
+	}
+	var seq ssa.Value
+	switch calleeBase(c) {
+	case "slices.Sorted":
+		seq, sorted = c.Call.Args[0], true
+	case "slices.Collect":
+		seq = c.Call.Args[0]
+	case "slices.AppendSeq":
+		if len(c.Call.Args) == 2 {
+			if els, sp, okE := elementsOf(c.Call.Args[0], map[ssa.Value]bool{}); okE && len(els) == 0 && len(sp) == 0 {
+				seq = c.Call.Args[1]
+			}
+		}
+	}
+	kc, isK := seq.(*ssa.Call)
+	if seq == nil || !isK || calleeBase(kc) != "maps.Keys" {
+		return nil, false, false
+	}
+	return kc.Call.Args[0], sorted, true
+}
+
 func staticCallee(c ssa.CallInstruction) *ssa.Function {
 	cc := c.Common()
 	if f := cc.StaticCallee(); f != nil {
